@@ -8,6 +8,7 @@ import (
 	"github.com/pkg/errors"
 
 	"github.com/ThreeDotsLabs/watermill"
+	"github.com/ThreeDotsLabs/watermill/internal/verifhook"
 	"github.com/ThreeDotsLabs/watermill/message"
 )
 
@@ -84,6 +85,7 @@ func (g *GoChannel) Publish(topic string, messages ...*message.Message) error {
 	if g.isClosed() {
 		return errors.New("Pub/Sub closed")
 	}
+	verifhook.Point("gochannel.publish.after_closed_check", topic)
 
 	messagesToPublish := make(message.Messages, len(messages))
 	for i, msg := range messages {
@@ -96,6 +98,7 @@ func (g *GoChannel) Publish(topic string, messages ...*message.Message) error {
 	subLock, _ := g.subscribersByTopicLock.LoadOrStore(topic, &sync.Mutex{})
 	subLock.(*sync.Mutex).Lock()
 	defer subLock.(*sync.Mutex).Unlock()
+	verifhook.Point("gochannel.publish.locked", topic)
 
 	if g.config.Persistent {
 		g.persistedMessagesLock.Lock()
@@ -108,6 +111,7 @@ func (g *GoChannel) Publish(topic string, messages ...*message.Message) error {
 		}
 		g.persistedMessages[topic] = append(g.persistedMessages[topic], messagesToPublish...)
 		g.persistedMessagesLock.Unlock()
+		verifhook.Point("gochannel.publish.persisted", topic)
 	}
 
 	for i := range messagesToPublish {
@@ -117,8 +121,10 @@ func (g *GoChannel) Publish(topic string, messages ...*message.Message) error {
 		if err != nil {
 			return err
 		}
+		verifhook.Point("gochannel.publish.sent", topic, msg.UUID)
 
 		if g.config.BlockPublishUntilSubscriberAck {
+			verifhook.Point("gochannel.publish.wait_ack", topic, msg.UUID)
 			g.waitForAckFromSubscribers(msg, ackedBySubscribers)
 		}
 	}
@@ -184,11 +190,13 @@ func (g *GoChannel) Subscribe(ctx context.Context, topic string) (<-chan *messag
 
 	g.subscribersWg.Add(1)
 	g.closedLock.Unlock()
+	verifhook.Point("gochannel.subscribe.after_closed_check", topic)
 
 	g.subscribersLock.Lock()
 
 	subLock, _ := g.subscribersByTopicLock.LoadOrStore(topic, &sync.Mutex{})
 	subLock.(*sync.Mutex).Lock()
+	verifhook.Point("gochannel.subscribe.locked", topic)
 
 	s := &subscriber{
 		ctx:           ctx,
@@ -214,6 +222,7 @@ func (g *GoChannel) Subscribe(ctx context.Context, topic string) (<-chan *messag
 		subLock, _ := g.subscribersByTopicLock.Load(topic)
 		subLock.(*sync.Mutex).Lock()
 		defer subLock.(*sync.Mutex).Unlock()
+		verifhook.Point("gochannel.unsubscribe.before_remove", topic, s.uuid)
 
 		g.removeSubscriber(topic, s)
 		g.subscribersWg.Done()
@@ -224,6 +233,7 @@ func (g *GoChannel) Subscribe(ctx context.Context, topic string) (<-chan *messag
 		defer subLock.(*sync.Mutex).Unlock()
 
 		g.addSubscriber(topic, s)
+		verifhook.Point("gochannel.subscribe.registered", topic, s.uuid)
 
 		return s.outputChannel, nil
 	}
@@ -232,6 +242,7 @@ func (g *GoChannel) Subscribe(ctx context.Context, topic string) (<-chan *messag
 		defer g.subscribersLock.Unlock()
 		defer subLock.(*sync.Mutex).Unlock()
 
+		verifhook.Point("gochannel.subscribe.replay", topic, s.uuid)
 		g.persistedMessagesLock.RLock()
 		messages, ok := g.persistedMessages[topic]
 		g.persistedMessagesLock.RUnlock()
@@ -246,6 +257,7 @@ func (g *GoChannel) Subscribe(ctx context.Context, topic string) (<-chan *messag
 		}
 
 		g.addSubscriber(topic, s)
+		verifhook.Point("gochannel.subscribe.registered", topic, s.uuid)
 	}(s)
 
 	return s.outputChannel, nil
@@ -303,6 +315,7 @@ func (g *GoChannel) Close() error {
 
 	g.closed = true
 	close(g.closing)
+	verifhook.Point("gochannel.close.signalled")
 
 	g.logger.Debug("Closing Pub/Sub, waiting for subscribers", nil)
 	g.subscribersWg.Wait()
@@ -335,10 +348,12 @@ func (s *subscriber) Close() {
 	close(s.closing)
 
 	s.logger.Debug("Closing subscriber, waiting for sending lock", nil)
+	verifhook.Point("gochannel.sub.close.before_lock", s.uuid)
 
 	// ensuring that we are not sending to closed channel
 	s.sending.Lock()
 	defer s.sending.Unlock()
+	verifhook.Point("gochannel.sub.close.locked", s.uuid)
 
 	s.logger.Debug("GoChannel Pub/Sub Subscriber closed", nil)
 	s.closed = true
@@ -349,6 +364,7 @@ func (s *subscriber) Close() {
 func (s *subscriber) sendMessageToSubscriber(msg *message.Message, logFields watermill.LogFields) {
 	s.sending.Lock()
 	defer s.sending.Unlock()
+	verifhook.Point("gochannel.send.locked", s.uuid, msg.UUID)
 
 	ctx, cancelCtx := context.WithCancel(s.ctx)
 	defer cancelCtx()
@@ -374,6 +390,7 @@ SendToSubscriber:
 			s.logger.Info("Pub/Sub closed, discarding msg", logFields)
 			return
 		}
+		verifhook.Point("gochannel.send.before_chan", s.uuid, msg.UUID)
 
 		select {
 		case s.outputChannel <- msgToSend:
@@ -382,6 +399,7 @@ SendToSubscriber:
 			s.logger.Trace("Closing, message discarded", logFields)
 			return
 		}
+		verifhook.Point("gochannel.send.wait_settle", s.uuid, msg.UUID)
 
 		select {
 		case <-msgToSend.Acked():
